@@ -151,6 +151,14 @@ pub fn run_cli_format(src: &str) -> Result<String, String> {
 
 pub fn worker_main(kind: &str) -> ! {
     crate::common::install_quiet_panic_hook();
+    // the library has no stack protection of its own: like the CLI's interpreter thread, the
+    // whole worker loop runs on one large stack
+    let kind = kind.to_string();
+    crate::common::on_big_stack(move || worker_loop(&kind));
+    std::process::exit(0)
+}
+
+fn worker_loop(kind: &str) {
     let stdin = std::io::stdin();
     let mut line = String::new();
     let out = std::io::stdout();
@@ -172,7 +180,6 @@ pub fn worker_main(kind: &str) -> ! {
         let _ = writeln!(o, "{}", answer);
         let _ = o.flush();
     }
-    std::process::exit(0)
 }
 
 /// Supervisor side: a worker process that is restarted when it dies; the case in flight when it
@@ -181,19 +188,19 @@ pub struct Worker {
     kind: String,
     child: Option<std::process::Child>,
     stdin: Option<std::process::ChildStdin>,
-    stdout: Option<std::io::BufReader<std::process::ChildStdout>>,
+    rx: Option<std::sync::mpsc::Receiver<String>>,
     stack_limit: Option<u64>,
 }
 
 pub enum WorkerAnswer {
     Ok(serde_json::Value),
-    /// worker died while processing the case
+    /// worker died (or was killed after the time cap) while processing the case
     Died(String),
 }
 
 impl Worker {
     pub fn new(kind: &str, stack_limit: Option<u64>) -> Self {
-        Worker { kind: kind.to_string(), child: None, stdin: None, stdout: None, stack_limit }
+        Worker { kind: kind.to_string(), child: None, stdin: None, rx: None, stack_limit }
     }
 
     fn ensure(&mut self) {
@@ -213,40 +220,67 @@ impl Worker {
                 }
                 let zero = libc::rlimit { rlim_cur: 0, rlim_max: 0 };
                 libc::setrlimit(libc::RLIMIT_CORE, &zero);
-                let mem = libc::rlimit { rlim_cur: 8 << 30, rlim_max: 8 << 30 };
+                let mem = libc::rlimit { rlim_cur: 12 << 30, rlim_max: 12 << 30 };
                 libc::setrlimit(libc::RLIMIT_AS, &mem);
                 Ok(())
             });
         }
         let mut child = cmd.spawn().expect("spawn worker");
         self.stdin = child.stdin.take();
-        self.stdout = child.stdout.take().map(std::io::BufReader::new);
+        let stdout = child.stdout.take().expect("worker stdout");
+        let (tx, rx) = std::sync::mpsc::channel();
+        std::thread::spawn(move || {
+            use std::io::BufRead;
+            for line in std::io::BufReader::new(stdout).lines() {
+                match line {
+                    Ok(l) => {
+                        if tx.send(l).is_err() {
+                            break;
+                        }
+                    }
+                    Err(_) => break,
+                }
+            }
+        });
+        self.rx = Some(rx);
         self.child = Some(child);
     }
 
-    pub fn ask(&mut self, case: &serde_json::Value) -> WorkerAnswer {
-        use std::io::BufRead;
+    fn reap(&mut self, why: &str) -> WorkerAnswer {
         use std::os::unix::process::ExitStatusExt;
+        let status = self.child.as_mut().and_then(|c| {
+            let _ = c.kill();
+            c.wait().ok()
+        });
+        let desc = match status {
+            Some(s) => format!("{}: worker exit code {:?} signal {:?}", why, s.code(), s.signal()),
+            None => format!("{}: worker vanished", why),
+        };
+        self.child = None;
+        self.stdin = None;
+        self.rx = None;
+        WorkerAnswer::Died(desc)
+    }
+
+    pub fn ask(&mut self, case: &serde_json::Value) -> WorkerAnswer {
+        self.ask_timeout(case, Duration::from_secs(60))
+    }
+
+    pub fn ask_timeout(&mut self, case: &serde_json::Value, cap: Duration) -> WorkerAnswer {
         self.ensure();
         let line = format!("{}\n", case);
         let wrote = self.stdin.as_mut().map(|s| s.write_all(line.as_bytes()).and_then(|_| s.flush()).is_ok()).unwrap_or(false);
-        let mut answer = String::new();
-        let read = if wrote { self.stdout.as_mut().map(|o| o.read_line(&mut answer).unwrap_or(0)).unwrap_or(0) } else { 0 };
-        if read == 0 {
-            // died
-            let status = self.child.as_mut().and_then(|c| c.wait().ok());
-            let desc = match status {
-                Some(s) => format!("worker exit code {:?} signal {:?}", s.code(), s.signal()),
-                None => "worker vanished".to_string(),
-            };
-            self.child = None;
-            self.stdin = None;
-            self.stdout = None;
-            return WorkerAnswer::Died(desc);
+        if !wrote {
+            return self.reap("worker died before the case was sent");
         }
-        match serde_json::from_str(answer.trim()) {
-            Ok(v) => WorkerAnswer::Ok(v),
-            Err(e) => WorkerAnswer::Died(format!("unparsable worker answer {:?}: {}", answer, e)),
+        let got = self.rx.as_ref().map(|rx| rx.recv_timeout(cap));
+        match got {
+            Some(Ok(answer)) => match serde_json::from_str(answer.trim()) {
+                Ok(v) => WorkerAnswer::Ok(v),
+                Err(e) => WorkerAnswer::Died(format!("unparsable worker answer {:?}: {}", answer, e)),
+            },
+            Some(Err(std::sync::mpsc::RecvTimeoutError::Timeout)) => self.reap(&format!("no answer within {:?} (hang)", cap)),
+            _ => self.reap("worker process died"),
         }
     }
 }
